@@ -149,7 +149,9 @@ def f_filter(nt: List[int], ext: List[int], isdir: bool, eisdir: bool) -> bool:
 
 
 # ---- walk over a symbolic tree ----------------------------------------------------------------
-SKELETON = [['a'], ['b'], ['a', 'a'], ['a', 'b'], ['a', 'a', 'a'], ['a', 'a', 'b'], ['b', 'a']]
+# second name of the tree skeleton: 'a.' sorts between 'a' and 'a/x' as a string (nested bases)
+YN = param('yname', 'b')
+SKELETON = [['a'], [YN], ['a', 'a'], ['a', YN], ['a', 'a', 'a'], ['a', 'a', YN], [YN, 'a']]
 NODES = param('nodes', 6)
 
 
